@@ -209,7 +209,10 @@ def check(run):
     base = materialise()
     try:
         t = os.path.join(base, 'tree')
-        app = Application([('/s', StaticApplication([os.path.join(t, 'zroot1'), os.path.join(t, 'aroot2')])),
+        # (an upload route restricted to POST covers the same URL space in front of the static applications: a GET skips it)
+        from clastic import POST, Response
+        app = Application([POST('/s/<path*>', lambda path: Response('uploaded')),
+                           ('/s', StaticApplication([os.path.join(t, 'zroot1'), os.path.join(t, 'aroot2')])),
                            ('/s', StaticApplication([os.path.join(t, 'root3')]))])
         lm_cache = {}
         for n, rec in enumerate(recs):
@@ -249,7 +252,10 @@ def replay(run, path):
     base = materialise()
     try:
         t = os.path.join(base, 'tree')
-        app = Application([('/s', StaticApplication([os.path.join(t, 'zroot1'), os.path.join(t, 'aroot2')])),
+        # (an upload route restricted to POST covers the same URL space in front of the static applications: a GET skips it)
+        from clastic import POST, Response
+        app = Application([POST('/s/<path*>', lambda path: Response('uploaded')),
+                           ('/s', StaticApplication([os.path.join(t, 'zroot1'), os.path.join(t, 'aroot2')])),
                            ('/s', StaticApplication([os.path.join(t, 'root3')]))])
         req = rec['req']
         lm = None
